@@ -1,10 +1,11 @@
 package main
 
 import (
-	"path/filepath"
 	"go/token"
 	"go/types"
 	"math"
+	"path/filepath"
+	"strconv"
 
 	"golang.org/x/tools/go/ssa"
 )
@@ -289,6 +290,43 @@ func registerMisc(e *engine) {
 	e.reg("path/filepath.Base", func(fr *frame, fn *ssa.Function, a []value) value { return filepath.Base(a[0].(string)) })
 	// the ledger instantiates its crypto plugin from the genesis config; harnesses
 	// that need ledger-internal crypto install their stub afterwards
+	// logging gets empty bodies: an uninitialised LogFitter (every method checks isInit and returns)
+	e.reg("github.com/xuperchain/xupercore/lib/logs.NewLogger", func(fr *frame, fn *ssa.Function, a []value) value {
+		lp := fr.m.eng.prog.ImportedPackage("github.com/xuperchain/xupercore/lib/logs")
+		z := zero(lp.Type("LogFitter").Type())
+		return tuple{&z, iface{}}
+	})
+	// pseudo-random ids: a counter (randomness is not a subject of any property here)
+	e.reg("github.com/xuperchain/xupercore/lib/utils.GenPseudoUniqId", func(fr *frame, fn *ssa.Function, a []value) value {
+		fr.m.models.uniq++
+		return uint64(1000 + fr.m.models.uniq)
+	})
+	// timers and tickers never fire in the model (the stub clock does not drive them): code that only
+	// waits on them for periodic housekeeping (cache janitors) blocks; stated in DESIGN.md
+	for _, n := range []string{"NewTicker", "NewTimer"} {
+		e.reg("time."+n, func(fr *frame, fn *ssa.Function, a []value) value {
+			tt := deref(fn.Signature.Results().At(0).Type())
+			z := zero(tt)
+			st := tt.Underlying().(*types.Struct)
+			z.(structure)[0] = &Chan{cap: 1, elem: st.Field(0).Type().Underlying().(*types.Chan).Elem()}
+			return &z
+		})
+	}
+	e.reg("(*time.Ticker).Stop", func(fr *frame, fn *ssa.Function, a []value) value { return nil })
+	e.reg("(*time.Ticker).Reset", func(fr *frame, fn *ssa.Function, a []value) value { return nil })
+	e.reg("(*time.Timer).Stop", func(fr *frame, fn *ssa.Function, a []value) value { return true })
+	e.reg("(*time.Timer).Reset", func(fr *frame, fn *ssa.Function, a []value) value { return true })
+	e.reg("github.com/golang/protobuf/proto.EnumName", func(fr *frame, fn *ssa.Function, a []value) value {
+		m := fr.m
+		mp, _ := a[0].(*Map)
+		v := int32(m.concInt(a[1], "enum value"))
+		if mp != nil {
+			if en := mp.find(m, v, false); en != nil {
+				return en.val
+			}
+		}
+		return strconv.Itoa(int(v))
+	})
 	// a harness may install its contract-level stub in vrt.CryptoClient; the factory functions then hand it out
 	cryptoStub := func(fr *frame) value {
 		if vp := fr.m.eng.prog.ImportedPackage("github.com/xuperchain/xupercore/zzverif/vrt"); vp != nil {
